@@ -315,6 +315,7 @@ func checkC09(r *Run) {
 	})
 	if os.Getenv("VERIF_C09_ONLY") == "" {
 		c09RealWatch(r)
+		c09Split(r)
 	}
 	r.Count("history_steps_compared", int(steps))
 	r.Count("steps_where_fresh_result_changed", int(changedSteps))
